@@ -371,8 +371,10 @@ Fixpoint skip_eols (isld : N -> bool) (bytes : str) (f g : nat) (r : lres) : lre
       end
   end.
 
+Definition lex_gas (bytes : str) : nat := (3 * length bytes + 4)%nat.
+
 Definition new_lexer (isld : N -> bool) (bytes : str) (f : nat) : lres :=
-  skip_eols isld bytes f (S (length bytes)) (lnext isld bytes f init_l).
+  skip_eols isld bytes f (lex_gas bytes) (lnext isld bytes f init_l).
 
 (* ---- the lexer alone, as the hook VerifC19Lex drives it --------------------------------------- *)
 Inductive lex_out :=
@@ -395,7 +397,6 @@ Fixpoint lex_loop (isld : N -> bool) (bytes : str) (f g : nat) (r : lres) (acc :
       end
   end.
 
-Definition lex_gas (bytes : str) : nat := (3 * length bytes + 4)%nat.
 Definition lex_fuel (b : str) : nat := (length b + 5)%nat.
 
 Definition lex_all (isld : N -> bool) (f : nat) (b : str) : lex_out :=
